@@ -1,5 +1,6 @@
 """C20 - secrets appear in the log only in verbose (debug) mode.  (DESIGN.md section 3, C20)"""
 import collections
+import os
 import hashlib
 import hmac
 import json
@@ -266,6 +267,13 @@ def odd_situations():
             out.append(('peer-goes-silent:%s:%s' % (what, lab), conf, None, [('acquire', 'A', 0, 0), 'drain'] + trig + ['silence']))
         out.append(('peer-goes-silent:half-open:%s' % lab, conf, None, [('acquire', 'A', 0, 0), 'silence']))
         out.append(('peer-goes-silent:auth-outstanding:%s' % lab, conf, None, [('acquire', 'A', 0, 0), 'one', 'one', 'silence']))
+    # the daemon is shut down (close(), as the SIGINT handler does) in the middle of things: idle with a tunnel up, with a
+    # request outstanding, with two IKE_SAs
+    for lab, conf in (('psk', S.base_confs()), ('rsa', S.base_confs(a_over={'my_auth': rsa_a},
+                                                                     b_over={'peer_auth': {"id": "alice@openikev2", "pubkey": S.PUBKEY}}))):
+        out.append(('shutdown:tunnel-up:%s' % lab, conf, None, [('acquire', 'A', 0, 0), 'drain', 'close:A', 'close:B']))
+        out.append(('shutdown:request-outstanding:%s' % lab, conf, None, [('acquire', 'A', 0, 0), 'drain', ('acquire', 'A', 0, 0), 'close:A', 'close:B']))
+        out.append(('shutdown:before-any-traffic:%s' % lab, conf, None, ['close:A']))
     out.append(('dh-secrets-with-leading-zero', c, None,
                 [('acquire', 'A', 0, 0), 'drain'] + [('due', 'A', -1, 'rekey_ike'), 'drain', ('acquire', 'B', 0, 0), 'drain'] * 5))
     return out
@@ -295,6 +303,21 @@ def run_handshakes():
             elif item == 'one':
                 if w.net:
                     do(('deliver', w.net[0].id))
+            elif isinstance(item, str) and item.startswith('close:'):
+                ep_ = w.endpoints[item[6:]]
+                do(('sweep', item[6:]))              # (main_loop has run at least once: it creates the control socket)
+                pre_ = w.fork()
+                w.step_logs, w.step_internal_errors = [], []
+                w._enter(ep_)
+                try:
+                    ep_.controller.close()
+                except Exception as ex_:   # noqa - C15 judges what close() does; here only what it writes
+                    pass
+                finally:
+                    w._leave()
+                n += 1
+                for v in m_log(pre_, ('close', item[6:]), w):
+                    viol.append((v[0], '%s:%s' % (label, v[1]), v[2], list(w.history) + [('close', item[6:])], label))
             elif item == 'silence':
                 # nothing gets through any more: both ends run into their retransmission limits
                 for _ in range(45):
@@ -400,6 +423,72 @@ def startup_cases():
     return n, viol
 
 
+YAML_SECRETS = [('plain', 'plain-secret-one'), ('at-sign', '@secret-with-an-at-sign'), ('percent', '%secret-with-a-percent-sign'),
+                ('backtick', '`secret-with-a-backtick'), ('colon-space', 'first: second-secret-part'), ('open-bracket', '[secret-open-bracket'),
+                ('open-brace', '{secret-open-brace'), ('open-quote', '"secret-open-quote'), ('alias', '*secret-like-an-alias'),
+                ('tab', 'secret\twith-a-tab'), ('hash-inside', 'secret #with-a-comment-sign'), ('tag', '!secret-like-a-tag x')]
+YAML_TEMPLATE = """conn:
+  my_addr: 192.168.0.1
+  peer_addr: 192.168.0.2
+  my_auth:
+    id: alice@openikev2
+    psk: %s
+  peer_auth:
+    id: bob@openikev2
+    psk: %s
+  protect:
+    - index: 1
+"""
+_SCRIPT_STUB = ("import sys, runpy\n"
+                "import ikesacontroller\n"
+                "class _Stop:\n"
+                "    def __init__(self, *a, **k):\n"
+                "        print('CONTROLLER-WOULD-START'); sys.exit(0)\n"
+                "ikesacontroller.IkeSaController = _Stop\n"
+                "sys.argv = ['pyikev2.py', '-i', '192.168.0.1', '-c', sys.argv[1]]\n"
+                "runpy.run_path('pyikev2.py', run_name='__main__')\n")
+
+
+def script_cases():
+    """the start-up script itself (pyikev2.py, run as a program with the controller replaced by a stub that stops at once)
+    over configuration FILES whose secret makes the file unreadable as YAML or loads fine: whatever it writes (stdout and
+    stderr at the default level) shows no secret"""
+    import subprocess
+    import tempfile
+    n, viol = 0, []
+    tmp = tempfile.mkdtemp(prefix='c20.')
+    try:
+        for lab, secret in YAML_SECRETS:
+            for where in (0, 1):
+                n += 1
+                vals = ['the-other-secret-of-this-file', 'the-other-secret-of-this-file']
+                vals[where] = secret
+                path = os.path.join(tmp, '%s-%d.yaml' % (lab, where))
+                with open(path, 'w') as f:
+                    f.write(YAML_TEMPLATE % tuple(vals))
+                p = subprocess.run([sys.executable, '-W', 'ignore', '-c', _SCRIPT_STUB, path], cwd=seams.REPO, stdout=subprocess.PIPE,
+                                   stderr=subprocess.STDOUT, timeout=120, env=dict(os.environ, PYTHONPATH=seams.REPO))
+                text = p.stdout.decode(errors='replace')
+                C.COVER['script-runs'] += 1
+                C.COVER['script-runs:%s' % ('started' if 'CONTROLLER-WOULD-START' in text else 'refused')] += 1
+                SECRETS.clear()
+                for v_ in vals:
+                    note('PSK', v_.encode())
+                    for part in v_.replace('"', ' ').split():
+                        note('PSK (part)', part.encode())
+                hits = scan(text)
+                if hits:
+                    viol.append(('M-secret', 'script:%s:%s-in-the-output' % (lab, hits[0][0].replace(' ', '-')),
+                                 'pyikev2.py run on a configuration file whose %s pre-shared key is %r writes the %s (%s): %r' % (
+                                     'own' if where == 0 else "peer's", secret, hits[0][0], hits[0][1], text[-300:]), [],
+                                 'script:%s:%d' % (lab, where)))
+    finally:
+        import shutil
+        shutil.rmtree(tmp, ignore_errors=True)
+        SECRETS.clear()
+    return n, viol
+
+
 def nonvacuity():
     """the same scanner must find every kind of secret in the DEBUG records of one verbose run"""
     confs = S.base_confs(a_entry={'dh': ['19']}, b_entry={'dh': ['19']})
@@ -427,7 +516,9 @@ def replay(path):
     doc = jdec(json.load(open(path)))
     sc = doc['scenario']
     res = []
-    if 'handshake' in sc and sc['handshake'].startswith('startup:'):
+    if 'handshake' in sc and sc['handshake'].startswith('script:'):
+        res = [v for v in script_cases()[1] if v[4] == sc['handshake']]
+    elif 'handshake' in sc and sc['handshake'].startswith('startup:'):
         res = [v for v in startup_cases()[1] if v[4] == sc['handshake']]
     elif 'handshake' in sc:
         table = {label: (confs, None, []) for label, confs in mismatch_confs()}
@@ -440,7 +531,17 @@ def replay(path):
                 w.endpoints[item[1]].controller.cookie_threshold = item[2]
         for ev in doc['history']:
             pre = w.fork()
-            w.step(ev)
+            if ev[0] == 'close':
+                w.step_logs, w.step_internal_errors = [], []
+                w._enter(w.endpoints[ev[1]])
+                try:
+                    w.endpoints[ev[1]].controller.close()
+                except Exception:   # noqa
+                    pass
+                finally:
+                    w._leave()
+            else:
+                w.step(ev)
             res += list(m_log(pre, ev, w))
     else:
         note_conf(C.CONFIGS[sc['config']]())
@@ -480,6 +581,9 @@ def main():
     n_st, viol_st = startup_cases()
     n_hs += n_st
     viol += viol_st
+    n_sc, viol_sc = script_cases()
+    n_hs += n_sc
+    viol += viol_sc
     for mon, sig, msg, hist, label in viol:
         ck.violation('%s:%s' % (mon, sig), msg, dict(scenario=dict(handshake=label), history=hist))
     m = merge_stats(stats)
